@@ -1,5 +1,7 @@
 import Lemmas.TaskQueueLive
 import Lemmas.TaskQueueNew
+import Lemmas.TaskQueueEnv
+import Lemmas.TaskQueueGrow
 /-! # C15 — the task queue runs every submitted task exactly once before Shutdown returns
 
 Property theorems only.  The model is the threaded program `TQW.TStep` (Model/TaskQueue.lean): submitters, the `in`
@@ -268,6 +270,61 @@ theorem shutdown_returns_for_every_new_queue (ncpu : Nat) (opts : List TQNew.Opt
     (run (mu2 s + 1)).q.shut = 2 :=
   tshutdown_returns code _ code_inDomain (TQNew.newCfg_workers_pos ncpu opts) s h hs run h0 hrun
 
+/-! ### callers outside the contract: `Submit` after, or blocked at, `Shutdown` (Model/TaskQueueEnv.lean; script lines
+`late` and `shutx` of the forced area) — what the code does instead of an assumption -/
+
+/-- **a `Submit` that meets `Shutdown` is either accepted before the close or panics in its caller — never half**: once
+    `Shutdown` has been called (`close(q.in)` done) the rule that accepts a task is not enabled, for callers outside and for
+    tasks of the queue itself; the only thing a `Submit` call can then do is the caller-side panic "send on closed
+    channel" (`submitClosed`), which is enabled exactly then and changes nothing but the count of such panics: the queue
+    part of the state — accepted tasks, channels, workers — is untouched.  Before `Shutdown`, `submitClosed` is not enabled. -/
+theorem late_submit_panics_and_is_not_accepted (v : Variant) (c : Cfg) (e : TQE.ES) :
+    (1 ≤ e.ts.q.shut → (∀ p, tnext v c e.ts (.q (.submit p)) = none) ∧ (∀ i, tnext v c e.ts (.nestedSubmit i) = none) ∧
+       TQE.enext v c e .submitClosed = some { e with callerPanics := e.callerPanics + 1 }) ∧
+    (e.ts.q.shut = 0 → TQE.enext v c e .submitClosed = none) := by
+  refine ⟨fun hs => ⟨fun p => (TQE.no_accept_after_shutdown v c e.ts hs p).1, (TQE.no_accept_after_shutdown v c e.ts hs false).2, ?_⟩,
+          fun h0 => ?_⟩
+  · simp [TQE.enext, hs]
+  · simp [TQE.enext, h0]
+
+/-- every theorem above holds for histories with such callers: the queue part of every state reachable in the caller
+    layer is a reachable state of the threaded model, and the executable layer the driver runs is the relation -/
+theorem outside_contract_states_are_queue_states (v : Variant) (c : Cfg) (e : TQE.ES) (h : TQE.EReachable v c e) :
+    TReachable v c e.ts ∧ ∀ e', (TQE.EStep v c e e' ↔ ∃ l, TQE.enext v c e l = some e') :=
+  ⟨TQE.ereachable_ts v c e h, fun e' => TQE.estep_iff_enext v c e e'⟩
+
+/-- **Shutdown returns although callers keep calling `Submit` after it**: in every run of the caller layer with at most
+    `K` late `Submit` calls (each panics in its caller) `Shutdown` has returned within `mu2 + K + 1` steps; by
+    `shutdown_after_all_done` every task accepted before the close has then finished exactly once.  (Without a bound on
+    the late calls an unfair scheduler could run only those: `K` is the only fairness-like assumption.) -/
+theorem shutdown_returns_despite_late_submits (v : Variant) (c : Cfg) (hv : InDomain v) (hw : 1 ≤ c.workers) (e : TQE.ES)
+    (h : TQE.EReachable v c e) (hs : 1 ≤ e.ts.q.shut) (K : Nat) (run : Nat → TQE.ES) (h0 : run 0 = e)
+    (hrun : ∀ i, TQE.EStep v c (run i) (run (i + 1)) ∨ (run (i + 1) = run i ∧ ¬ ∃ e', TQE.EStep v c (run i) e'))
+    (hK : ∀ i, (run i).callerPanics ≤ e.callerPanics + K) : (run (mu2 e.ts + K + 1)).ts.q.shut = 2 :=
+  TQE.eshutdown_returns v c hv hw e h hs K run h0 hrun hK
+
+/-- **"tasks end" is needed, and exactly that** (the converse of `shutdown_returns`): `Shutdown` has not returned in any
+    reachable state in which a task is still inside `task()` — so a task that never ends keeps `Shutdown` waiting for
+    ever, along every run in which it stays running -/
+theorem shutdown_waits_for_every_running_task (v : Variant) (c : Cfg) (hv : Sound v) (run : Nat → TS) (t : Nat)
+    (hreach : ∀ i, TReachable v c (run i)) (hnever : ∀ i, t ∈ runningOf (run i).ws) : ∀ i, (run i).q.shut ≠ 2 := by
+  intro i h2
+  have := (shutdown_after_all_done v c hv (run i) (hreach i) (Or.inl h2)).2.1
+  have hm := hnever i
+  rw [this] at hm
+  cases hm
+
+/-- **the order theorems are about backlogs of every size** (seeded ind6-c15-b / ind7-c15-b: a backlog that reorders when
+    it grows while partly drained): for an unbounded queue (`Depth` negative, the default) the backlog — a list without
+    any capacity in the model, as `append` makes it in the code — reaches EVERY length `N` in a reachable state of the
+    program as it is, with all of `tasks` full and `Shutdown` not called; and in every reachable state, whatever the
+    history of growth and drain, the pipeline read from the workers back to the input is `0, 1, …, nextId−1` -/
+theorem order_holds_at_every_backlog_size (c : Cfg) (hd : c.depth < 0) (hi : 1 ≤ c.inCap) :
+    (∀ N, ∃ s, TReachable code c s ∧ s.q.backlog.length = N ∧ s.q.tq.length = c.workers ∧ s.q.shut = 0) ∧
+    (∀ s, TReachable code c s →
+      s.q.started ++ (s.q.tq ++ (liveBacklog s.q ++ (held s.q.pc ++ s.q.inq))) = List.range s.q.nextId) :=
+  ⟨backlog_reaches_any_size c hd hi, fun s h => fifo code c code_inDomain.1 s h⟩
+
 /-- the code as it is lies in both classes -/
 theorem code_is_in_domain : InDomain code ∧ Sound code := ⟨code_inDomain, code_inDomain.1⟩
 
@@ -348,5 +405,29 @@ example : ∃ s, TReachable code { workers := 1, depth := 0, inCap := 2 } s ∧ 
     s.q.finished.count 1 = 0 :=
   ⟨_, executable_states_reachable code { workers := 1, depth := 0, inCap := 2 } [.q (.submit false), .q (.submit true)] _ rfl,
    by decide, by decide, by decide⟩
+
+/-- non-vacuity of the caller layer: one worker, `Depth(0)`, `in` of capacity 1 — three tasks accepted, `Shutdown` closes
+    `in` while a fourth `Submit` would be blocked; that call and a later one panic in their callers (2), the three accepted
+    tasks run, `Shutdown` returns -/
+example :
+    let c : Cfg := { workers := 1, depth := 0, inCap := 1 }
+    (TQE.erunLabels code c { ts := init c }
+      [.inner (.q (.submit false)), .inner (.q .recv), .inner (.q .handoff), .inner (.take 0), .inner (.q (.submit false)),
+       .inner (.q .recv), .inner (.q .handoff), .inner (.q (.submit false)), .inner (.q .shutdown), .submitClosed, .submitClosed,
+       .inner (.q .recv), .inner (.q .toWait), .inner (.ret 0), .inner (.report 0), .inner (.q .waitReady), .inner (.take 0),
+       .inner (.q .sendDirect), .inner (.q .closed), .inner (.q .drainDone), .inner (.ret 0), .inner (.report 0), .inner (.take 0),
+       .inner (.q .finalReady), .inner (.ret 0), .inner (.report 0), .inner (.q .finalReady), .inner (.q .finalClose),
+       .inner (.q .signalDone)]).map
+      (fun e => (e.ts.q.shut, e.ts.q.finished, e.callerPanics, e.ts.q.nextId)) = some (2, [2, 1, 0], 2, 3) := by
+  decide
+
+/-- non-vacuity of `shutdown_waits_for_every_running_task`: a reachable state with `Shutdown` waiting and task 0 running,
+    in which nothing but the end of that task is enabled -/
+example :
+    let c : Cfg := { workers := 1, depth := -1, inCap := 1 }
+    (trunLabels code c (init c)
+      [.q (.submit false), .q .recv, .q .handoff, .take 0, .q .shutdown, .q .closed, .q .drainDone]).map
+      (fun s => (s.q.shut, runningOf s.ws, tenabled code c s)) = some (1, [0], [.ret 0]) := by
+  decide
 
 end C15
